@@ -46,7 +46,7 @@ func (ref Reference) CompletionAtPos(ctx context.Context, pos hcl.Pos) []lang.Ca
 		}
 		candidates := make([]lang.Candidate, 0)
 		ref.pathCtx.ReferenceTargets.MatchWalk(ctx, ref.cons, "", outerBodyRng, editRng, func(target reference.Target) error {
-			address := target.Address(ctx, editRng.Start).String()
+			address := referenceCandidateAddress(ctx, target, "", editRng)
 
 			candidates = append(candidates, lang.Candidate{
 				Label:       address,
@@ -98,15 +98,7 @@ func (ref Reference) CompletionAtPos(ctx context.Context, pos hcl.Pos) []lang.Ca
 
 	candidates := make([]lang.Candidate, 0)
 	ref.pathCtx.ReferenceTargets.MatchWalk(ctx, ref.cons, prefix, outerBodyRng, editRng, func(target reference.Target) error {
-		address := target.Address(ctx, editRng.Start).String()
-		if !strings.HasPrefix(address, prefix) {
-			// target was matched via its other (absolute or local) address
-			if strings.HasPrefix(target.Addr.String(), prefix) {
-				address = target.Addr.String()
-			} else if strings.HasPrefix(target.LocalAddr.String(), prefix) {
-				address = target.LocalAddr.String()
-			}
-		}
+		address := referenceCandidateAddress(ctx, target, prefix, editRng)
 
 		candidates = append(candidates, lang.Candidate{
 			Label:       address,
@@ -122,4 +114,28 @@ func (ref Reference) CompletionAtPos(ctx context.Context, pos hcl.Pos) []lang.Ca
 		return nil
 	})
 	return candidates
+}
+
+// referenceCandidateAddress returns the address under which
+// the target is to be offered at the given edit range.
+func referenceCandidateAddress(ctx context.Context, target reference.Target, prefix string, editRng hcl.Range) string {
+	address := target.Address(ctx, editRng.Start).String()
+
+	// local (self.*) address is only meaningful within the file
+	// the target is declared in (positions alone don't tell files apart)
+	if len(target.Addr) > 0 && target.TargetableFromRangePtr != nil &&
+		target.TargetableFromRangePtr.Filename != editRng.Filename {
+		address = target.Addr.String()
+	}
+
+	if !strings.HasPrefix(address, prefix) {
+		// target was matched via its other (absolute or local) address
+		if strings.HasPrefix(target.Addr.String(), prefix) {
+			address = target.Addr.String()
+		} else if strings.HasPrefix(target.LocalAddr.String(), prefix) {
+			address = target.LocalAddr.String()
+		}
+	}
+
+	return address
 }
